@@ -457,3 +457,9 @@ V("c19-sgr-params-any", "C19", "rich/ansi.py", r'(?:\x1b\[([0-?]*)m)', r'(?:\x1b
 V("c19-sgr-params-not-m", "C19", "rich/ansi.py", r'(?:\x1b\[([0-?]*)m)', r'(?:\x1b\[([^m]*)m)', "R19.13")
 V("c19-benign-sgr-params-digits", "C19", "rich/ansi.py", r'(?:\x1b\[([0-?]*)m)', r'(?:\x1b\[([0-9;:]*)m)', None)
 V("c19-sgr-params-no-semicolon", "C19", "rich/ansi.py", r'(?:\x1b\[([0-?]*)m)', r'(?:\x1b\[([0-9]*)m)', "R19.4")
+AN = "rich/ansi.py"
+V("c19-sgr-branch-truthy", "C19", AN, "            elif sgr is not None:\n", "            elif sgr:\n", "R19.14")
+V("c19-sgr-omitted-code-dropped", "C19", AN, "                    if _code.isdecimal() or not _code\n", "                    if _code.isdecimal()\n", "R19.14")
+V("c19-token-sgr-default-empty", "C19", AN, "    sgr: Optional[str] = None\n", '    sgr: Optional[str] = ""\n', "R19.14")
+V("c19-sgr-omitted-code-one", "C19", AN, 'min(255, int(_code.lstrip("0")[:4] or "0"))', 'min(255, int(_code.lstrip("0")[:4] or "1"))', "R19.14")
+V("c19-benign-sgr-omitted-eq", "C19", AN, "                    if _code.isdecimal() or not _code\n", '                    if _code == "" or _code.isdecimal()\n', None)
